@@ -289,7 +289,8 @@ class BaseProject(object, metaclass=ABCMeta):
 
         self.simulation_mode = SimulationMode.FORWARD
 
-        self.absence_time_list = absence_time_list
+        # keep an own copy: the (default) argument object must not be shared with the caller or later runs
+        self.absence_time_list = list(absence_time_list)
 
         self.perform_auto_task_while_absence_time = perform_auto_task_while_absence_time
 
